@@ -206,6 +206,24 @@ fn hist_addr(rng: &mut Rng) -> u64 {
     }
 }
 
+/// addresses in OTHER regions that share the low 8 / 16 bits with a peripheral register (timer 0, port DDR / DR):
+/// a store there must have no effect on the peripheral ("no write ever changes what any other location reads")
+fn mirror_addr(rng: &mut Rng) -> u64 {
+    let regs: [u64; 12] = [0xffff80, 0xffff82, 0xffff84, 0xffff86, 0xffff88, 0xfee000, 0xfee003, 0xfee00a, 0xffffd0, 0xffffd3, 0xffffda, 0xffff81];
+    let r = rng.pick(&regs);
+    let lo8 = r & 0xff;
+    let lo16 = r & 0xffff;
+    match rng.below(7) {
+        0 => 0xfee000 | lo8,
+        1 => if lo8 >= 0x20 { 0xffbf00 | lo8 } else { 0xffc000 | lo8 },
+        2 => 0xfffe00 | lo8,
+        3 => 0x400000 | lo16,
+        4 => 0x5f0000 | lo16,
+        5 => lo8,
+        _ => if lo8 <= 0xe9 && lo8 >= 0x20 { 0xffff00 | lo8 } else { 0xffd000 | lo8 },
+    }
+}
+
 pub fn run_bus_history(args: &Args) -> Result<()> {
     let outdir = args.req("out")?.to_string();
     let seed = args.num("seed", 1);
@@ -219,8 +237,29 @@ pub fn run_bus_history(args: &Args) -> Result<()> {
         handles.push(std::thread::spawn(move || -> Result<u64> {
             let mut h = Hist::new(&format!("{}/thr_hist_{:02}.ndjson", outdir, t), if t % 2 == 0 { Bg::Zero } else { Bg::Tag })?;
             let mut rng = Rng::new(seed ^ hash_str("C09hist"), t as u64);
-            for _ in 0..n_hist {
+            for hn in 0..n_hist {
                 h.reset()?;
+                if hn % 4 == 3 {
+                    // side-effect aliasing: stores to look-alike addresses, elapsed time, reads of the peripherals
+                    let timer_on = rng.chance(1, 2);
+                    if timer_on {
+                        h.bw(0xffff84, 0xf0)?;
+                        h.bw(0xffff80, [1u8, 2, 0x41][rng.below(3) as usize])?;
+                    }
+                    let len = 8 + rng.below(16);
+                    for _ in 0..len {
+                        match rng.below(6) {
+                            0 | 1 => h.bw(mirror_addr(&mut rng), [0u8, 1, 2, 3, 0x49, 0xff, 0x0f][rng.below(7) as usize])?,
+                            2 => h.tick([8u8, 64, 200, 255][rng.below(4) as usize])?,
+                            3 => h.br([0xffff88u64, 0xffff82, 0xffff80, 0xffffd0, 0xffffd3, 0xffffda][rng.below(6) as usize])?,
+                            _ => h.br(mirror_addr(&mut rng))?,
+                        }
+                    }
+                    h.tick(200)?;
+                    h.br(0xffff88)?;
+                    h.br(0xffff82)?;
+                    continue;
+                }
                 let mut pool: Vec<u64> = (0..6).map(|_| hist_addr(&mut rng)).collect();
                 let len = 10 + rng.below(40);
                 for _ in 0..len {
